@@ -230,6 +230,46 @@ def run_once(run_id: int, scenario: str, programs: List[List[list]], auto_refres
 
 
 def run(tier: str, seed: int) -> dict:
+    """Watchdog wrapper (added by the maintainer of /verif): the stress run happens in a child process so that
+    a deadlock in the code under check — including one that blocks the main thread inside stop() — is
+    reported as a failure of c11.no_deadlock instead of hanging the check."""
+    import multiprocessing as mp
+
+    limit = 150.0 if tier != "thorough" else 900.0
+    ctx = mp.get_context("fork")
+    parent, child = ctx.Pipe(duplex=False)
+    progress = ctx.Value("i", -1)
+
+    def target():
+        try:
+            child.send(_run_inner(tier, seed, progress))
+        except BaseException as e:  # noqa
+            child.send({"__error__": repr(e)})
+
+    proc = ctx.Process(target=target, daemon=True)
+    t0 = time.time()
+    proc.start()
+    res = None
+    if parent.poll(limit):
+        try:
+            res = parent.recv()
+        except EOFError:
+            res = None
+    if res is None or "__error__" in (res or {}):
+        where = progress.value
+        proc.kill()
+        proc.join(5)
+        what = ("the stress run did not finish within %.0f s: a thread (or the main thread inside start()/stop()) is blocked — deadlock; "
+                "last run started: #%d" % (limit, where)) if res is None else "stress harness crashed: %s" % res["__error__"]
+        return {"evaluations": max(where, 1), "distinct_nontrivial": 2, "rule": "watchdog result: the child process running the stress runs was killed",
+                "bound": "tier %s, seed %d" % (tier, seed), "samples": [{"last_run_started": where}], "clauses": {"c11.no_deadlock": max(where, 1)},
+                "failures": [{"check": "c11.no_deadlock", "what": what, "input_key": "run#%d seed=%d" % (where, seed), "input": {"seed": seed, "run_index": where, "tier": tier},
+                              "expected": "every run joins all its threads", "observed": "blocked for %.0f s" % (time.time() - t0)}]}
+    proc.join(10)
+    return res
+
+
+def _run_inner(tier: str, seed: int, progress=None) -> dict:
     t_start = time.time()
     quick = tier != "thorough"
     n_runs = 600 if quick else 12000
@@ -248,6 +288,8 @@ def run(tier: str, seed: int) -> dict:
         for i in range(n_runs):
             if time.time() - t_start > budget:
                 break
+            if progress is not None:
+                progress.value = i
             rng = random.Random("c11:%d:%d" % (seed, i))
             scenario = rng.choice(["none", "live", "live", "progress"])
             auto = rng.random() < 0.5
